@@ -102,3 +102,31 @@ def param_kwargs(cname, tup):
 
 def random_params(rnd, cname):
     return param_kwargs(cname, rnd.choice(CLASSES.get(cname, [[]])))
+
+
+def expr_magnitude(expr):
+    """sum of |coefficient| x |value of the key| of an evaluated expression: the size of the numbers whose cancellation
+    produces its value.  A residual far below 1e-6 of it is rounding of the solver on a badly scaled model, not a violation."""
+    import numpy as np
+    from PEPit import Expression
+    if expr.get_is_leaf(): return abs(float(expr.eval()))
+    tot = 0.0
+    for k, c in expr.decomposition_dict.items():
+        if isinstance(k, tuple): tot += abs(c) * abs(float(np.dot(k[0].eval(), k[1].eval())))
+        elif isinstance(k, Expression): tot += abs(c) * abs(float(k.eval()))
+        else: tot += abs(c)
+    return tot
+
+
+def worst_violation(pep, min_eig):
+    """largest violation among the constraints and LMIs the PEP recorded as sent, evaluated at the returned instance, ignoring
+    residuals below 1e-6 of the magnitudes involved in the constraint (solver rounding on badly scaled data)"""
+    import numpy as np
+    worst = 0.0
+    for c in pep._list_of_constraints_sent_to_wrapper:
+        v = float(c.expression.eval()); v = v if c.equality_or_inequality == "inequality" else abs(v)
+        if v > worst and v > 1e-6 * expr_magnitude(c.expression): worst = v
+    for m in pep._list_of_psd_sent_to_wrapper:
+        M = np.asarray(m.eval(), dtype=float); v = -min_eig(M)
+        if v > worst and v > 1e-6 * float(np.abs(M).max() if M.size else 0.0): worst = v
+    return worst
